@@ -19,7 +19,7 @@ import parser_common as pc
 EXDIR = os.path.join(lib.COQ, 'Extract', 'Build')
 DRIVER = os.path.join(EXDIR, 'driver')
 V_SOURCES = [('Parser', f) for f in ('PyStr.v', 'Lex.v', 'Format.v', 'Symbols.v', 'Split.v', 'Merge.v', 'ParseEq.v', 'ParseModel.v')] + \
-            [('Build', 'Classify.v'), ('Build', 'BuildDef.v')]
+            [('Build', 'Classify.v'), ('Build', 'BuildDef.v'), ('Build', 'BuildRepr.v'), ('Build', 'BuildDefFacts.v'), ('Build', 'BuildRoutes.v')]
 MODEL_FILES = ['%s/%s' % p for p in V_SOURCES] + ['Extract/Build/ExtractBuild.v']
 
 
